@@ -6,6 +6,9 @@ proof:          lean/PdshVerif/Props/C05.lean (relay model over the FIFO specifi
 correspondence: harness/relay_harness.c = unmodified dsh.c/err.c/cbuf.c driven in-process over scripted
                 non-blocking pipes, every stdio call recorded, vs `pdshmodel relay index|fifo`
 oracle:         real code's stdio calls vs `pdshmodel relay spec` (Relay/Spec.lean: flatten = render)
+scheduler:      the unmodified dsh.c under the controlled scheduler (vlib/relay_sched.py): 2-6 targets with
+                scripted stdout+stderr, adversarial schedules at every stdio call; per stream the stripped
+                concatenation of the wrapped fputs calls = the scripted bytes, exactly once
 supporting:     real pdsh -R exec runs with scripted writers (kernel fragmentation, real threads)
 The procedure is shared with C06: vlib/relay.py:run_check.
 """
